@@ -187,6 +187,53 @@ Proof.
     + apply (Hc e w); auto. rewrite Hl. apply in_or_app; right; right; auto.
 Qed.
 
+(* -------------------------------------------------------------- interrupt ---- *)
+Lemma parked_unpark u l : parked (unpark u l) = filter (fun v => negb (v =? u)) (parked l).
+Proof.
+  induction l as [|x l IH]; cbn; auto. rewrite filter_app. f_equal. exact IH.
+Qed.
+
+Lemma filter_out_id u (L : list Z) : ~ In u L -> filter (fun v => negb (v =? u)) L = L.
+Proof.
+  induction L as [|a L IH]; cbn; auto. intros H.
+  destruct (a =? u) eqn:E; [apply Z.eqb_eq in E; subst; tauto|]. cbn. f_equal. apply IH. tauto.
+Qed.
+
+Lemma perm_filter_out u (L : list Z) : NoDup L -> In u L ->
+  Permutation L (u :: filter (fun v => negb (v =? u)) L).
+Proof.
+  induction L as [|a L IH]; intros Hn Hin; [destruct Hin|].
+  inversion Hn as [|? ? Ha Hn']; subst. cbn.
+  destruct (a =? u) eqn:E.
+  - apply Z.eqb_eq in E; subst. cbn. rewrite filter_out_id; auto.
+  - cbn. destruct Hin as [->|Hin]; [rewrite Z.eqb_refl in E; discriminate|].
+    eapply Permutation_trans; [apply perm_skip; apply IH; auto|]. apply perm_swap.
+Qed.
+
+Lemma is_parked_in s u : is_parked s u = true -> In u (parked (idx s)).
+Proof.
+  unfold is_parked, parked. intros H. apply existsb_exists in H. destruct H as (e & He & H).
+  apply existsb_exists in H. destruct H as (v & Hv & H). apply Z.eqb_eq in H. subst.
+  apply in_flat_map. exists e; auto.
+Qed.
+
+Lemma NoDup_app_r' {A} (l1 l2 : list A) : NoDup (l1 ++ l2) -> NoDup l2.
+Proof. induction l1; cbn; auto. intros H. inversion H; auto. Qed.
+
+Lemma interrupt_winv s t u s' evs : winv s -> interrupt s t u = (s', evs) -> winv s'.
+Proof.
+  intros [Hn Hp Hc] H. unfold interrupt in H. unfold ptids in *.
+  destruct (is_parked s u) eqn:Ep; inversion H; subst; clear H; [|split; auto].
+  apply is_parked_in in Ep.
+  assert (Hnd : NoDup (parked (idx s))). { eapply NoDup_app_r'. eapply Permutation_NoDup; eauto. }
+  split; unfold ptids; cbn; auto.
+  - rewrite parked_unpark. eapply Permutation_trans; [exact Hp|].
+    rewrite <- app_assoc. cbn [app]. apply Permutation_app_head. apply perm_filter_out; auto.
+  - intros e w He Hw. unfold unpark in He. apply in_map_iff in He. destruct He as (z & <- & Hz).
+    cbn in Hw. apply filter_In in Hw. destruct Hw as [Hw _].
+    destruct (Hc z w Hz Hw) as (p & Hp1 & Hp2). exists p; split; auto.
+Qed.
+
 Lemma is_pending_false s t : is_pending s t = false -> ~ In t (ptids s).
 Proof.
   unfold is_pending, ptids. intros H Hin. destruct (lookup_pend_some t (pend s) Hin) as [p Hp]. rewrite Hp in H. discriminate.
@@ -196,11 +243,12 @@ Lemma exec_op_winv s c s' evs : winv s -> exec_op s c = (s', evs) -> winv s'.
 Proof.
   intros Hw H. unfold exec_op in H. destruct (is_pending s (op_tid c)) eqn:Ep; [inversion H; subst; auto|].
   apply is_pending_false in Ep.
-  destruct c as [t k o l|t o l|t h|t h o l]; cbn in H, Ep.
+  destruct c as [t k o l|t o l|t h|t h o l|t u]; cbn in H, Ep.
   - eapply attempt_winv; eauto.
   - eapply unlock_range_winv; eauto.
   - eapply unlock_handle_winv; eauto.
   - eapply adjust_range_winv; eauto.
+  - eapply interrupt_winv; eauto.
 Qed.
 
 (* ------------------------------------------------------------------- wake ---- *)
